@@ -102,7 +102,10 @@ class SeqCheck:
                     # one header line per history (the first `#` line of the file, tagged with the corpus entry's name)
                     ls = [l for l in open(os.path.join(d, f)).read().split('\n') if l.strip()]
                     body = [l for l in ls if not l.startswith('#')]
-                    out.write(f'# corpus {f}\n' + '\n'.join(body) + '\n')
+                    cfgs = [l for l in body if l.startswith('cfg ')]; ops = [l for l in body if not l.startswith('cfg ')]
+                    # a replay of the variant suite lists several buffer types for one history: one history per type
+                    for c in cfgs:
+                        out.write(f'# corpus {f}\n' + c + '\n' + '\n'.join(ops) + '\n')
             return path
         divs = []
         cstats = None
